@@ -554,6 +554,13 @@ def build_root(D, cz, form):
         cz.vf = odl.ProductSpace(space, space) if form % 2 == 0 else odl.ProductSpace(space, 2)
         a, b = scal_spell(D['a'], form, fld), scal_spell(D['b'], form // 4, fld)
         return Built(odl.LinCombOperator(space, a, b))
+    if k == 'const' and D['ran'] != sp:
+        # the constant lives in the range; the domain is given separately
+        ran = cz.space(D['ran'])
+        c = cz.value(D['ran'], D['v'], ('element', 'array', 'list')[form % 3], space=ran)
+        if form % 3 == 0 and form % 2 == 0:
+            return Built(odl.ConstantOperator(c, domain=space))
+        return Built(odl.ConstantOperator(c, space, ran) if form % 2 else odl.ConstantOperator(c, domain=space, range=ran))
     if k in ('mul', 'mulS', 'inner', 'dist', 'const'):
         y = cz.value(sp, D['v'], 'element')
         if k == 'mul':
@@ -627,6 +634,10 @@ def observe_calls(op, line_dom, line_ran, pts, pw, cz, D, hist=True):
     dom, ran = line_dom, line_ran
     in_place_ok = ran['t'] != 'F'
 
+    def fail(mode, x, ex):
+        calls.append({'mode': mode, 'x': x, 'y': [], 'yq': [], 'tok': 'raised:' + type(ex).__name__, 'tokq': 'raised', 'neg': False,
+                      'note': str(ex)[:160]})
+
     def rec(mode, x, y, note=''):
         yq, tokq, negq = cz.quantise(ran, y, pw)
         if D is None:
@@ -636,20 +647,19 @@ def observe_calls(op, line_dom, line_ran, pts, pw, cz, D, hist=True):
         calls.append({'mode': mode, 'x': x, 'y': yp if yp is not None else [], 'yq': yq, 'tok': tok, 'tokq': tokq, 'neg': bool(neg),
                       'note': note})
 
-    def fail(mode, x, ex):
-        calls.append({'mode': mode, 'x': x, 'y': [], 'yq': [], 'tok': 'raised:' + type(ex).__name__, 'tokq': 'raised', 'neg': False,
-                      'note': str(ex)[:160]})
-
     def unchanged(xe, x):
         back, tok, _ = cz.project(dom, xe, 1, lattice_den(x))
         return tok == '' and back == x
 
     first = None
+    prev_out = None
     for q, x in enumerate(pts):
         try:
             xe = cz.value(dom, x, 'element', space=op.domain)
         except Exception as ex:
-            raise MachineryError('leafops: cannot build the input element: %r' % ex)
+            # the real domain does not take a point of the documented domain (reported by the domain clause as well)
+            fail('oop', x, ex)
+            continue
         # out of place on an element
         try:
             y = op(xe)
@@ -678,13 +688,17 @@ def observe_calls(op, line_dom, line_ran, pts, pw, cz, D, hist=True):
         # in place: pre-filled out, `out` is returned
         if in_place_ok:
             try:
-                out = op.range.element()
-                if cz.prec != 'int' and getattr(op.range, 'dtype', np.dtype(float)).kind in 'fc':
-                    if ran['t'] == 'P':
-                        for o in out:
-                            o[:] = GARBAGE
-                    else:
-                        out[:] = GARBAGE
+                if q > 0 and prev_out is not None:
+                    out = prev_out              # history: the caller re-uses `out`, it still holds the previous result
+                else:
+                    out = op.range.element()
+                    if cz.prec != 'int' and getattr(op.range, 'dtype', np.dtype(float)).kind in 'fc':
+                        if ran['t'] == 'P':
+                            for o in out:
+                                o[:] = GARBAGE
+                        else:
+                            out[:] = GARBAGE
+                prev_out = out
                 r = op(xe, out=out)
                 note = '' if r is out else 'ret-is-not-out'
                 if not note and dom['t'] != 'F' and not unchanged(xe, x):
@@ -940,7 +954,7 @@ def replay_exports(ctx, outs, share=3):
             raise MachineryError('empty export %s' % path)
         for q, line in enumerate(lines):
             n_lines += 1
-            reps = 1 if quick else 2
+            reps = 1 if quick else 3
             for r in range(reps):
                 kk = q + r + ctx.seed
                 tasks.append((line, EPO[(kk + 2 * r) % len(EPO)], (q // 4 + 7 * r + 5 * ctx.seed) % 60))
@@ -1037,6 +1051,8 @@ def validate_events(ctx, evs):
                     # a random driver chain left the machine (the specification decides which steps exist): no verdict
                     ctx.extra['leafops_driver_chains_outside_machine'] = ctx.extra.get('leafops_driver_chains_outside_machine', 0) + 1
                     continue
+                if clause == 'harness-point-shape' and re.search(r'<<\s*"domain"\s*,', cl):
+                    continue     # the driver drew its points from the real (wrong) domain: the domain clause reports it
                 if clause.startswith('harness-'):
                     raise MachineryError('leafops: Trace_LeafOp reports a harness error: %s on %s' % (cl, json.dumps(ev['root'])[:300]))
                 sig = signature(ev, clause, mode, cz)
@@ -1173,7 +1189,11 @@ def random_root(rnd):
         ax = rnd.randrange(len(shape))
         rows = rnd.choice((1, 2, 3)) if rnd.random() < 0.6 else shape[ax]
         cplx = rnd.random() < 0.3
-        m = [[_rc(rnd, 'C' if cplx else 'R') for _ in range(shape[ax])] for _ in range(rows)]
+        if rows == shape[ax] and rows <= 2:
+            # (inverses are offered for these: small integer entries keep the exact inverse within 32-bit arithmetic)
+            m = [[cq(rnd.randint(-3, 3), rnd.choice((0, 0, 1, -1)) if cplx else 0) for _ in range(shape[ax])] for _ in range(rows)]
+        else:
+            m = [[_rc(rnd, 'C' if cplx else 'R') for _ in range(shape[ax])] for _ in range(rows)]
         mf = 'C' if not all(c[1] == [0, 1] for r in m for c in r) else 'R'
         rshape = list(shape)
         rshape[ax] = rows
@@ -1215,6 +1235,10 @@ def random_root(rnd):
             chains += [['deriv'], ['deriv', 'adjoint']]
         return mk(k, sp, env, v=v), chains
     if k == 'const':
+        if fld == 'R' and rnd.random() < 0.3:
+            ran = sp_T([3], 'R', 'plain')
+            v = _parts(rnd, ran) if rnd.random() < 0.7 else [[cq(0)] * 3]
+            return mk(k, sp, env, v=v, ran=ran), [[], ['deriv'], ['adjoint'], ['deriv', 'adjoint']]
         v = _parts(rnd, sp) if rnd.random() < 0.7 else [[cq(0)] * N]
         return mk(k, sp, env, v=v), [[], ['deriv'], ['adjoint'], ['deriv', 'adjoint']]
     if k == 'zero':
@@ -1318,6 +1342,9 @@ def driver_event(rnd, root, chain, tid):
     if dom['t'] == 'P':
         cz.vf = op.domain
     pts = [_parts(rnd, dsp) for _ in range(2)]
+    if getattr(op.domain, 'dtype', np.dtype(float)).kind in 'iu':
+        # (MatrixOperator without a domain takes the data type of the matrix: integer points for an integer matrix)
+        pts = [[[cq(fq(c[0]) * 2, fq(c[1]) * 2) for c in part] for part in x] for x in pts]
     pw = 2 if (root['k'] in ('norm', 'dist') and not chain) or (root['k'] == 'pwnorm' and root['q'] == [2, 1] and not chain) else 1
     # no lattice is guessed here: results are logged quantised and compared by the trace specification
     ev['calls'] = observe_calls(op, dsp, rsp, pts, pw, cz, None)
@@ -1326,7 +1353,7 @@ def driver_event(rnd, root, chain, tid):
 
 def run_drivers(ctx):
     rnd = random.Random(7919 * ctx.seed + 13)
-    nep = 700 if ctx.tier == 'quick' else 5000
+    nep = 700 if ctx.tier == 'quick' else 12000
     evs = []
     tid = 0
     while len(evs) < nep and tid < 4 * nep:
@@ -1514,6 +1541,60 @@ def factory_stage(ctx):
                         continue
                     if got != want:
                         V(cls.__name__, 'sampling-points', case=a, form=f, got=got, want=want)
+    # documented preconditions of the constructors that are not part of the machine's root families
+    import scipy.sparse
+    r3, r23 = odl.rn(3), odl.rn((2, 3))
+    pr = odl.ProductSpace(odl.rn(2), odl.rn(3))
+    must_raise = [
+        ('MatrixOperator', 'sparse-matrix-on-several-axes', lambda: odl.MatrixOperator(scipy.sparse.eye(3, format='csr'), domain=r23, axis=1)),
+        ('MatrixOperator', 'domain-not-a-tensor-space', lambda: odl.MatrixOperator(np.eye(2), domain=pr)),
+        ('MatrixOperator', 'range-not-a-tensor-space', lambda: odl.MatrixOperator(np.eye(3), domain=r3, range=pr)),
+        ('MatrixOperator', 'matrix-with-three-axes', lambda: odl.MatrixOperator(np.zeros((2, 2, 2)))),
+        ('MatrixOperator', 'axis-not-integer', lambda: odl.MatrixOperator(np.eye(3), domain=r23, axis=1.5)),
+        ('PointwiseNorm', 'not-a-product-space', lambda: odl.PointwiseNorm(r3)),
+        ('PointwiseNorm', 'not-a-power-space', lambda: odl.PointwiseNorm(pr)),
+        ('PointwiseInner', 'not-a-product-space', lambda: odl.PointwiseInner(r3, r3.one())),
+        ('PointwiseSum', 'not-a-product-space', lambda: odl.PointwiseSum(r3)),
+        ('SamplingOperator', 'domain-not-a-tensor-space', lambda: odl.SamplingOperator(pr, [0])),
+        ('WeightedSumSamplingOperator', 'range-not-a-tensor-space', lambda: odl.WeightedSumSamplingOperator(pr, [0])),
+        ('FlatteningOperator', 'domain-not-a-tensor-space', lambda: odl.FlatteningOperator(pr)),
+        ('ConstantOperator', 'array-constant-without-range', lambda: odl.ConstantOperator([1.0, 2.0, 3.0])),
+        ('ConstantOperator', 'array-constant-without-domain', lambda: odl.ConstantOperator([1.0, 2.0, 3.0], range=r3)),
+        ('ScalingOperator', 'domain-not-a-space', lambda: odl.ScalingOperator([1, 2], 2.0)),
+        ('PowerOperator', 'out-with-field-domain', lambda: odl.PowerOperator(odl.RealNumbers(), 2)._call(2.0, out=r3.element())),
+    ]
+    for cls, what, fn in must_raise:
+        n += 1
+        ctx.count(['leafops-documented-error', cls, what], True)
+        try:
+            fn()
+        except Exception:
+            continue
+        V(cls, 'construction-accepted', what=what)
+    # odl.vector(array, order=...): "axis ordering of the data storage"; None enforces nothing
+    for order in ('C', 'F', None):
+        for inp in ([[1, 2, 3], [4, 5, 6]], np.asfortranarray(np.arange(6.0).reshape(2, 3)), np.arange(6.0).reshape(2, 3)):
+            n += 1
+            ctx.count(['leafops-vector-order', order, type(inp).__name__], True)
+            try:
+                v = odl.vector(inp, order=order) if order is not None else odl.vector(inp)
+            except Exception as ex:
+                V('vector', 'raised', order=order, exc='%s: %s' % (type(ex).__name__, str(ex)[:160]))
+                continue
+            flags = v.data.flags
+            if (order == 'C' and not flags.c_contiguous) or (order == 'F' and not flags.f_contiguous):
+                V('vector', 'order', order=order, inp=type(inp).__name__)
+            if not np.array_equal(np.asarray(v), np.asarray(inp)):
+                V('vector', 'value', order=order, inp=type(inp).__name__)
+    # layer C pins a quirk of the code as written (MC_LeafOpImpl_quirk): an array weighting is never propagated to the
+    # inferred range, not even when the shapes agree.  Layer A leaves that case open; a change is model drift only.
+    try:
+        rw = odl.MatrixOperator(np.eye(3), domain=odl.rn(3, weighting=[1.0, 2.0, 3.0])).range.weighting
+        if hasattr(rw, 'array'):
+            ctx.drift_note('leafops: MatrixOperator now propagates an array weighting to a range of equal shape; '
+                           'LeafOpImpl!MatInit (list_ne_tuple) pins the old behaviour')
+    except Exception:
+        pass
     ctx.traces += n
     ctx.extra['leafops_factory_cases'] = n
     return n
